@@ -337,6 +337,11 @@ def c13(ctx, api):
                                          harness_args=['-timeout', '60s'])
     acc.add('GenBigStr: sort / sort_by / max / min / reverse on %s strings with leading characters of 1-4 bytes in pseudo-random order; '
             'the expected array is a closed form checked against the specification sort for n = 10, 20, 30' % sizes, st, summ)
+    sizes = '{1000, 1024, 1500, 4096, 10000}' if thorough else '{1000, 1024, 1500}'
+    st, summ = api['run_tlc_to_harness'](ctx, 'bigsort', 'GenBigSort', cfg(constants={'Emit': 'TRUE', 'Prop': '"C13"', 'Sizes': sizes}), timeout=1500,
+                                         harness_args=['-timeout', '60s'])
+    acc.add('GenBigSort: sort_by on %s records with many ties in 6 key patterns (descending / ascending blocks, cyclic, sawtooth, scattered, constant) x '
+            '{number, string} keys; the stable order is a closed form checked against the specification sort for n = 7, 19, 31' % sizes, st, summ)
     tv = api['run_trace_validation'](ctx, 'sort-traces', 400 if thorough else 96, ctx['seed'], corpus=False, mode='sort',
                                      maxlen=200 if thorough else 100)
     acc.add_traces('trace validation: sort_by / max_by / min_by / sort / group_by on random arrays of 13..200 elements with many ties, '
@@ -647,7 +652,10 @@ def c03(ctx, api):
     text = cfg(spec='HSpec', constants={'Emit': 'TRUE', 'Prop': '"C03"', 'Big': 'FALSE', 'KindsA': '{"json"}', 'KindsB': '{"json"}'},
                invariants=('HCheck',))
     st, summ = api['run_tlc_to_harness'](ctx, 'hostile', 'GenHostile', text, timeout=3000)
-    acc.add('GenHostile: 33 non-JSON / non-finite Go values at each of 5 leaf positions x 81 expressions', st, summ)
+    acc.add('GenHostile: 38 non-JSON / non-finite / non-UTF-8 Go values at each of 5 leaf positions x 81 expressions', st, summ)
+    st, summ = api['run_tlc_to_harness'](ctx, 'hostile-apply', 'GenApply', cfg(constants={'Emit': 'TRUE', 'Prop': '"C03"'}), timeout=1500)
+    acc.add('GenApply: every function x argument count x argument position holding each of the 38 hostile values (pool literals elsewhere), '
+            'plus the projected / mapped forms', st, summ)
     n = 6 if thorough else 5
     text = cfg(constants={'Emit': 'TRUE', 'Prop': '"C03"', 'MaxLen': n, 'AlphaName': '"Bytes"'})
     text = text.replace('CONSTANTS\n', 'CONSTANTS\n  Alpha <- AlphaBytes\n')
